@@ -725,7 +725,14 @@ def rule_r9(ctx) -> List[R.Inst]:
         t = n.generators[0].target
         return isinstance(t, ast.Tuple) and len(t.elts) == 2 and all(isinstance(x, ast.Name) for x in t.elts) and \
             unparse(n.key) == t.elts[0].id and unparse(n.value) == t.elts[1].id
-    keeps = any(isinstance(n, ast.DictComp) and _kv(n) for n in ast.walk(fn.node))
+    def _all_cells(n):
+        # ... and <items> is ALL cells of the row: <row param>.to_dict().items() (a dropna() / filter in between loses the row's NaN cells:
+        # the item then carries the constructor's default where the row says NaN)
+        it = n.generators[0].iter
+        p_row = [a.arg for a in fn.node.args.args if a.arg not in ("cls", "self")]
+        return isinstance(it, ast.Call) and call_name(it) == "items" and unparse(it.func.value) in (f"{p_row[0]}.to_dict()", f"dict({p_row[0]})", p_row[0]) \
+            if p_row else False
+    keeps = any(isinstance(n, ast.DictComp) and _kv(n) and _all_cells(n) for n in ast.walk(fn.node))
     reraises = any(isinstance(n, ast.ExceptHandler) and any(isinstance(x, ast.Raise) for x in n.body) for n in ast.walk(fn.node))
     if filt and keeps and reraises:
         insts.append(R.ok("C16.R9", "from_series", file, line, idiom="cls(**{k: v if k allowed}); missing field re-raised"))
